@@ -25,6 +25,10 @@ enum Mutation {
     UnknownOutputId(u32),
     DuplicateInput(u16),
     DuplicateOutput(u16),
+    /// same-length request: entry j replaced by a copy of entry k != j (the
+    /// request keeps the length of the plan cached by the preceding valid run)
+    ReplaceInputWithDuplicate(u16, u16),
+    ReplaceOutputWithDuplicate(u16, u16),
     OperatorIdAsInput(u16),
     OperatorIdAsOutput(u16),
     ConstantIdAsInput(u16),
@@ -67,6 +71,8 @@ fn mutation() -> impl Strategy<Value = Mutation> {
         2 => big_id.prop_map(Mutation::UnknownOutputId),
         2 => any::<u16>().prop_map(Mutation::DuplicateInput),
         2 => any::<u16>().prop_map(Mutation::DuplicateOutput),
+        2 => (any::<u16>(), any::<u16>()).prop_map(|(a, b)| Mutation::ReplaceInputWithDuplicate(a, b)),
+        3 => (any::<u16>(), any::<u16>()).prop_map(|(a, b)| Mutation::ReplaceOutputWithDuplicate(a, b)),
         2 => any::<u16>().prop_map(Mutation::OperatorIdAsInput),
         2 => any::<u16>().prop_map(Mutation::OperatorIdAsOutput),
         2 => any::<u16>().prop_map(Mutation::ConstantIdAsInput),
@@ -184,6 +190,29 @@ fn oracle(profile: &Profile, c: &Case) -> Verdict {
             let k = idx(*s, out_ids.len());
             out_ids.push(out_ids[k]);
             label = "duplicate-output";
+        }
+        Mutation::ReplaceInputWithDuplicate(a, b) => {
+            let n = in_ids.len();
+            if n < 2 {
+                applicable = false;
+            } else {
+                let j = idx(*a, n);
+                let k = (j + 1 + idx(*b, n - 1)) % n;
+                in_ids[j] = in_ids[k];
+                vals[j] = vals[k].clone();
+                label = if j.abs_diff(k) >= 2 { "replace-input-with-duplicate:non-adjacent" } else { "replace-input-with-duplicate:adjacent" };
+            }
+        }
+        Mutation::ReplaceOutputWithDuplicate(a, b) => {
+            let n = out_ids.len();
+            if n < 2 {
+                applicable = false;
+            } else {
+                let j = idx(*a, n);
+                let k = (j + 1 + idx(*b, n - 1)) % n;
+                out_ids[j] = out_ids[k];
+                label = if j.abs_diff(k) >= 2 { "replace-output-with-duplicate:non-adjacent" } else { "replace-output-with-duplicate:adjacent" };
+            }
         }
         Mutation::OperatorIdAsInput(s) => {
             if op_ids.is_empty() {
@@ -433,7 +462,7 @@ fn main() {
     let mut ck = Check::new("C26");
     ck.rule(
         "Cases = (typed-grammar ONNX model, optimisation on/off, one request mutation, API in {run, partial_run, run_n, run_one}). \
-         Mutations named invalid by the property (unknown input/output id incl. ids near i32::MAX, duplicated input/output id, \
+         Mutations named invalid by the property (unknown input/output id incl. ids near i32::MAX, duplicated input/output id (appended, or replacing another entry so that the request keeps the length of the plan cached by the preceding valid run; adjacent and non-adjacent positions), \
          operator id as input/output, constant id as input, missing required input, wrong dtype, wrong rank, wrong fixed dim) \
          must give Err; mutations that are not invalid (control, extra unused input, changed symbolic dim) must merely not panic. \
          Non-trivial = an invalid mutation applied to a request whose unmodified form succeeds. Distinct = distinct case value.",
